@@ -25,6 +25,7 @@ func SetFinalizer(obj interface{}, fn interface{}) {
 		runtime.SetFinalizer(obj, nil)
 		return
 	}
+	noteFinalizer()
 	fv := reflect.ValueOf(fn)
 	ft := fv.Type()
 	w := reflect.MakeFunc(ft, func(args []reflect.Value) []reflect.Value {
@@ -40,6 +41,20 @@ func SetFinalizer(obj interface{}, fn interface{}) {
 	runtime.SetFinalizer(obj, w.Interface())
 }
 
+// finUsed: some finalizer was registered in this process. Until then ForceGC
+// touches no lock, so that it creates no happens-before edge between the tasks
+// that happen to execute forced collections.
+var finUsed bool
+
+//go:norace
+func noteFinalizer() { finUsed = true }
+
+//go:norace
+func finalizersInUse() bool { return finUsed }
+
+//go:norace
+func countFinalizers(n int) { FinalizersRun += int64(n) }
+
 func finPending() int {
 	finMu.Lock()
 	n := len(finQ)
@@ -52,7 +67,7 @@ func finPending() int {
 // simulated task that runs the queued finalizers.
 func ForceGC() {
 	runtime.GC()
-	if !Active() {
+	if !Active() || !finalizersInUse() {
 		return
 	}
 	last, quiet := finPending(), 0
@@ -71,7 +86,7 @@ func ForceGC() {
 	if len(q) == 0 {
 		return
 	}
-	FinalizersRun += int64(len(q))
+	countFinalizers(len(q))
 	Spawn(func() {
 		for _, f := range q {
 			f()
